@@ -145,7 +145,7 @@ def run_space(prop, tier, crash_owners):
             lo += step
     results = []
     with cf.ThreadPoolExecutor(max_workers=core.NCPU) as ex:
-        futs = [ex.submit(core.run_history_range, bins[c.name], c.name, core.SEED, lo, hi, ["--space"], 1800, 6) for (c, lo, hi) in jobs]
+        futs = [ex.submit(core.run_history_range, bins[c.name], c.name, core.SEED, lo, hi, ["--space"], 300 if tier == "quick" else 1800, 6) for (c, lo, hi) in jobs]
         for f in futs:
             results.append(f.result())
     old = vec.CRASH_OWNERS
@@ -188,7 +188,7 @@ def run_engine(prop, tier, cfgs, hist_quick, hist_thorough, ops=60, extra_args=(
             lo = hi
     results = []
     with cf.ThreadPoolExecutor(max_workers=core.NCPU) as ex:
-        futs = [ex.submit(core.run_history_range, bins[c.name], c.name, core.SEED, lo, hi, ["--ops", str(ops)] + list(extra_args), 900, 8)
+        futs = [ex.submit(core.run_history_range, bins[c.name], c.name, core.SEED, lo, hi, ["--ops", str(ops)] + list(extra_args), 240 if tier == "quick" else 1200, 8)
                 for (c, lo, hi) in jobs]
         for f in futs:
             results.append(f.result())
